@@ -392,13 +392,23 @@ def build_runner(fam):
     return runner
 
 
+def _big_stack():
+    """extracted code recurses structurally over long lists: give the runner the largest stack allowed"""
+    import resource
+    try:
+        soft, hard = resource.getrlimit(resource.RLIMIT_STACK)
+        resource.setrlimit(resource.RLIMIT_STACK, (hard, hard))
+    except (ValueError, OSError):
+        pass
+
+
 def run_model(fam, cases, chunk=20000):
     """cases: list of lists of ints ([fid, args...]); returns list of lists of ints"""
     runner = build_runner(fam)
     out = []
     for i in range(0, len(cases), chunk):
         inp = "\n".join(" ".join(str(x) for x in c) for c in cases[i:i + chunk]) + "\n"
-        p = subprocess.run([runner], input=inp, capture_output=True, text=True)
+        p = subprocess.run([runner], input=inp, capture_output=True, text=True, preexec_fn=_big_stack)
         if p.returncode != 0:
             raise Broken("model runner failed: " + p.stderr[-2000:])
         lines = p.stdout.split("\n")
